@@ -159,13 +159,13 @@ fn gen(rng: &mut Rng, _i: u64) -> String {
 					let cap = if rng.chance(1, 2) { 64 } else { 2048 };
 					let inner = rng.below((sz.max(4) as u64).min(cap)) as u32 & !(if width == 4 { 3 } else { 0 });
 					if va == 0 { rng.below(bytes.len() as u64 + 1) as usize }
-					else if mapped { (va + inner) as usize }
-					else if d == 4 { (va + inner) as usize }
+					else if mapped { va as usize + inner as usize }
+					else if d == 4 { va as usize + inner as usize }
 					else { rva_to_off(&src.bytes, l, va.wrapping_add(inner)).unwrap_or(0) }
 				},
 				_ => rng.below(bytes.len() as u64 + 1) as usize,
 			};
-			if off + width > bytes.len() {
+			if off.checked_add(width).map_or(true, |e| e > bytes.len()) {
 				continue;
 			}
 			let old = rd32(&bytes, off);
